@@ -61,6 +61,9 @@ func runNode(rng *rand.Rand, n int, out *Out, args []string) {
 		if w == 0 {
 			a = append(a, "repro")
 		}
+		if w == 1 {
+			a = append(a, "starved")
+		}
 		wg.Add(1)
 		go func(w int, a []string) {
 			defer wg.Done()
@@ -114,6 +117,9 @@ func tail(s string, n int) string {
 func runNodeWorker(rng *rand.Rand, n int, out *Out, args []string) {
 	if len(args) > 0 && args[0] == "repro" {
 		liquidityLateUpdate(out)
+	}
+	if len(args) > 0 && args[0] == "starved" {
+		starvedUpdates(rng, out)
 	}
 	for i := 0; i < n; i++ {
 		nodeHistory(rng, out)
@@ -842,7 +848,6 @@ func nodeHistory(rng *rand.Rand, out *Out) {
 	h.finish()
 }
 
-
 // read-only consensus queries (what the RPC layer and its 5-minute cache do on a running node): statistics of the
 // running and of earlier epochs, weights, delegations. They must not influence anything the node computes later
 // ("the credited amounts are a function of the chain alone"); asked at random moments on the producer and on the
@@ -993,6 +998,39 @@ func liquidityLateUpdate(out *Out) {
 	h.send(g.User2, types.LiquidityContract, types.ZnnTokenStandard, nil, updateData)
 	for i := 0; i < 4; i++ {
 		h.nd.Momentum()
+		h.observe()
+	}
+}
+
+// Update starvation: nobody calls Update of any reward contract until 22-27 epochs (10-minute epochs) are due, a few
+// stakes / a sentinel registered early so that every contract has something to reward; then the Updates arrive. The
+// per-update oracles of observeReceive (cursor-rewards-all-due-epochs, the per-epoch comparison of the credits with
+// the model for EVERY epoch the cursor passes, reward-history-changes-only-for-epochs-passed-now) then see a cursor
+// that has to cross more than 20 epochs in one go (or in several bounded Updates, each of which must reward what it passes).
+func starvedUpdates(rng *rand.Rand, out *Out) {
+	h := newHist(rng, out, 600, false, true)
+	defer h.nd.Stop()
+	for i := 0; i < 4; i++ {
+		h.act()
+		h.momentum()
+	}
+	due := 22 + rng.Intn(6)
+	for i := 0; i < 60*due+360+3; i++ {
+		h.nd.Momentum()
+	}
+	h.observe()
+	out.Count(fmt.Sprintf("node:starved-updates:epochs-due=%d", due))
+	for round := 0; round < 3; round++ {
+		for _, c := range rewardContracts {
+			h.send(actors[rng.Intn(len(actors))], c, types.ZnnTokenStandard, nil, updateData)
+		}
+		for i := 0; i < 4; i++ {
+			h.nd.Momentum()
+			h.observe()
+		}
+		for i := 0; i < int(constants.UpdateMinNumMomentums); i++ {
+			h.nd.Momentum()
+		}
 		h.observe()
 	}
 }
